@@ -11,7 +11,7 @@ import (
 func init() {
 	Registry["C43"] = RuleDef{Module: "rueidishook", Run: runC43,
 		Technique:   "sibling-shape comparison of the delegating wrappers and a taint rule (inner client must not escape unwrapped) on go/ssa",
-		Explanation: "Decides for rueidishook (R43a) that every request method the Hook interface lists (Do, DoMulti, DoCache, DoMultiCache, Receive, DoStream, DoMultiStream) on hookclient and on the dedicated wrapper calls the same-named Hook method exactly once on every path, passes the inner client and every parameter unchanged in order, returns the hook's result unchanged, and never calls a request method of the inner client directly; (R43b) in Dedicated, Dedicate and Nodes no client obtained from the inner client reaches the caller (callback argument, return value, map value) unless wrapped in a hookclient/dedicated value; (R43c) every wrapper value constructed carries the hook of its parent (or WithHook's argument). (R43d) every core client's Nodes() returns a map built for that call, which is what allows the hook wrapper to rewrite it in place.",
+		Explanation: "Decides for rueidishook (R43a) that every request method the Hook interface lists (Do, DoMulti, DoCache, DoMultiCache, Receive, DoStream, DoMultiStream) on hookclient and on the dedicated wrapper calls the same-named Hook method exactly once on every path, passes the inner client and every parameter unchanged in order, returns the hook's result unchanged, and never calls a request method of the inner client directly; (R43b) in Dedicated, Dedicate and Nodes no client obtained from the inner client reaches the caller (callback argument, return value, map value) unless wrapped in a hookclient/dedicated value; (R43c) every wrapper value constructed carries the hook of its parent (or WithHook's argument). (R43d) every core client's Nodes() returns a map built for that call, which is what allows the hook wrapper to rewrite it in place. (R43e) the hook and the wrapped client of a wrapper are written only into a freshly allocated wrapper: wrappers are never re-initialised (a pooled or reset wrapper can be held by two owners, whose commands then run each other's hook).",
 		NotDecided:  "what the user's Hook implementation does; clients reachable through other packages."}
 }
 
@@ -102,6 +102,17 @@ func runC43(r *Report) {
 						// parent's hook, or the hook parameter of WithHook
 						if strings.HasSuffix(d, ".hook") || strings.HasPrefix(d, "p") {
 							okHook = !IsNilConst(st.Val)
+							// a constructor helper's hook parameter: every caller hands it its own hook
+							if vals, _, okp := paramArgs(r.P, st.Val); okp {
+								for _, v := range vals {
+									dv := Desc(v)
+									if IsNilConst(v) || !(strings.HasSuffix(dv, ".hook") || strings.HasPrefix(dv, "p")) {
+										okHook = false
+									}
+								}
+							} else {
+								okHook = false
+							}
 						}
 						why = "hook field set from " + d
 					}
@@ -113,9 +124,32 @@ func runC43(r *Report) {
 			r.ObSite("R43c", s, "wrapper-literal:"+shortType(al.Type()), okHook && okClient, why)
 		}
 	}
+	// R43e: a wrapper's hook and wrapped client are fixed at construction: they are written only into
+	// an object allocated right there. A wrapper that is re-initialised (pooled, reset) can be in the
+	// hands of two owners, whose commands then run each other's hook - or none.
+	nInit := 0
+	for _, fn := range r.P.ModuleFuncs() {
+		if !strings.HasPrefix(FuncName(fn), hookPkg+".") {
+			continue
+		}
+		for _, st := range Sites(fn, func(in ssa.Instruction) bool { _, ok := in.(*ssa.Store); return ok }) {
+			t, f, base, ok := FieldRef(st.Instr.(*ssa.Store).Addr)
+			if !ok {
+				continue
+			}
+			isWrapperField := (t == hookPkg+".hookclient" || t == hookPkg+".dedicated") && (f == "hook" || f == "client") || t == hookPkg+".extended" && f == "DedicatedClient"
+			if !isWrapperField {
+				continue
+			}
+			nInit++
+			_, fresh := base.(*ssa.Alloc)
+			r.ObSite("R43e", st, "wrapper-field-set-only-at-construction:"+f, fresh, "the hook / wrapped client of a wrapper is written only into a freshly allocated wrapper (never into one obtained from a pool or handed in)")
+		}
+	}
+	r.Anchor("R43e", "wrapper field initialisations (>= 4)", nInit >= 4)
 	r.Min("R43a", 10)
 	r.Min("R43b", 3)
-	r.Min("R43c", 4)
+	r.Min("R43c", 2)
 }
 
 func indexOfMethod(it *types.Interface, name string) int {
